@@ -159,4 +159,53 @@ template <typename Flag>
 class is_flag_active_visitor<Flag, flag_and>""")]),
  dict(name='copy-back-missing-history', prop='C15', rule='C15.fields', edits=[(B, "         m_history = rhs.m_history;\n         m_event_processing = rhs.m_event_processing;", "         m_event_processing = rhs.m_event_processing;")]),
  dict(name='serialize-back11-missing-history', prop='C16', rule='C16.fields', edits=[(B11, "        ar & m_history;\n", "")]),
+
+ # ---- behaviour-preserving edits: the checks must stay silent
+ dict(name='refactor-rename-local', prop='C02', refactor=True, edits=[(B, """            HandledEnum res = ROW::action_call(fsm,evt,
+                             ::boost::fusion::at_key<current_state_type>(fsm.m_substate_list),
+                             ::boost::fusion::at_key<next_state_type>(fsm.m_substate_list),
+                             fsm.m_substate_list);
+            fsm.m_states[region_index] = active_state_switching::after_action(current_state,next_state);
+
+            // and finally the entry method of the new current state
+            convert_event_and_execute_entry<next_state_type,T2>
+                (::boost::fusion::at_key<next_state_type>(fsm.m_substate_list),evt,fsm);
+            fsm.m_states[region_index] = active_state_switching::after_entry(current_state,next_state);
+            return res;""", """            HandledEnum action_result = ROW::action_call(fsm,evt,
+                             ::boost::fusion::at_key<current_state_type>(fsm.m_substate_list),
+                             ::boost::fusion::at_key<next_state_type>(fsm.m_substate_list),
+                             fsm.m_substate_list);
+            fsm.m_states[region_index] = active_state_switching::after_action(current_state,next_state);
+
+            // and finally the entry method of the new current state
+            convert_event_and_execute_entry<next_state_type,T2>
+                (::boost::fusion::at_key<next_state_type>(fsm.m_substate_list),evt,fsm);
+            fsm.m_states[region_index] = active_state_switching::after_entry(current_state,next_state);
+            return action_result;""")]),
+ dict(name='refactor-gate-local', prop='C11', refactor=True, edits=[(B, """        if (is_event_handling_blocked_helper<Event>
+                ( ::boost::mpl::bool_<has_fsm_blocking_states<library_sm>::type::value>() ) )
+        {
+            return HANDLED_TRUE;
+        }""", """        const bool blocked = is_event_handling_blocked_helper<Event>
+                ( ::boost::mpl::bool_<has_fsm_blocking_states<library_sm>::type::value>() );
+        if (blocked)
+        {
+            return HANDLED_TRUE;
+        }""")]),
+ dict(name='refactor-nt-while-loop', prop='C06', refactor=True, edits=[(B, """            for (int i=0; i<nr_regions::value;++i)
+            {
+                this->no_transition(evt,*this,this->m_states[i]);
+            }""", """            int i = 0;
+            while (i < nr_regions::value)
+            {
+                this->no_transition(evt,*this,this->m_states[i]);
+                ++i;
+            }""")]),
+ dict(name='refactor-copy-reorder', prop='C15', refactor=True, edits=[(B, """         m_history = rhs.m_history;
+         m_event_processing = rhs.m_event_processing;""", """         m_event_processing = rhs.m_event_processing;
+         m_history = rhs.m_history;""")]),
+ dict(name='refactor-mask-eq-zero', prop='C01', refactor=True, edits=[('include/boost/msm/back/dispatch_table.hpp', "if (!(res & (HANDLED_TRUE | HANDLED_DEFERRED)))", "if ((res & (HANDLED_TRUE | HANDLED_DEFERRED)) == 0)")]),
+ dict(name='refactor-flag-helper-inline', prop='C04', refactor=True, edits=[(B, """            do_allow_event_processing_after_transition(
+                ::boost::mpl::bool_<is_no_message_queue<library_sm>::type::value>());""", """            // flag handling inlined
+            if (!is_no_message_queue<library_sm>::type::value) { m_event_processing = false; }""")]),
 ]
